@@ -1,8 +1,10 @@
 // Harness exprsyntax decides C09: template syntax (literals, escapes, quotes,
 // nesting) parses as documented.
 //
-// Eight enumerations (see Rule): (A) literal/escape round trip of every string
-// over a small alphabet in two escaping styles; (B) expression trees printed
+// Nine enumerations (see Rule): (A) literal/escape round trip of every string
+// over a small alphabet in two escaping styles, and of strings around the
+// "alias runes" of the special ASCII characters (alias.go); (W) words made of
+// punctuation that is not syntax (apostrophe, backtick, ...) in calls; (B) expression trees printed
 // with every whitespace/quoting variant (choice points of the mc explorer)
 // evaluated with recording functions registered in a private KeyBuilder;
 // (C) every single-character deletion / insertion in printed templates and
@@ -194,25 +196,30 @@ func (c *checker) judged(template, origin string) (v verdict, outcome string) {
 // ------------------------------------------------------------------ tiers
 
 type tierParams struct {
-	litAlphabet  []string
-	litLen       int
-	litAlphabet2 []string // a second, wider alphabet with a smaller length
-	litLen2      int
-	seps         []string
-	sepBits      []int
-	d1Bound3     int  // deviation bound for depth-1 trees with three arguments (-1: every combination)
-	b21, b22     int  // deviation bounds for depth-2 trees with 2 arguments and 1 / 2 inner calls
-	b31          int  // ... with 3 arguments and 1 inner call
-	fullDepth2   bool // depth-2 trees with 3 arguments and 2..3 inner calls
-	fullBound    int  // their deviation bound
-	mutIns       []string
-	mutBound     int // mutate every print with at most this many deviations (depth-1 trees)
-	mutDepth2    bool
-	escBound     int // deviation bound for the depth-2 trees of part E with two leaves (-1: every combination)
-	rawAlphabet  []string
-	rawLen       int
-	rawAlphabet2 []string
-	rawLen2      int
+	litAlphabet   []string
+	litLen        int
+	litAlphabet2  []string // a second, wider alphabet with a smaller length
+	litLen2       int
+	seps          []string
+	sepBits       []int
+	d1Bound3      int  // deviation bound for depth-1 trees with three arguments (-1: every combination)
+	b21, b22      int  // deviation bounds for depth-2 trees with 2 arguments and 1 / 2 inner calls
+	b31           int  // ... with 3 arguments and 1 inner call
+	fullDepth2    bool // depth-2 trees with 3 arguments and 2..3 inner calls
+	fullBound     int  // their deviation bound
+	mutIns        []string
+	mutBound      int // mutate every print with at most this many deviations (depth-1 trees)
+	mutDepth2     bool
+	escBound      int // deviation bound for the depth-2 trees of part E with two leaves (-1: every combination)
+	rawAlphabet   []string
+	rawLen        int
+	rawAlphabet2  []string
+	rawLen2       int
+	rawAlphabet3  []string // with the quote characters of other languages (' `): only the strings containing one
+	rawLen3       int
+	aliasBound    int // part E, alias runes: deviation bound for the depth-2 trees with two leaves (-1: every combination)
+	aliasPartner  int // ... number of partner leaves
+	pw2, pw3, pwD int // punctuation words: deviation bounds for depth-1 trees with 2 / 3 arguments and for depth-2 trees
 }
 
 func params(quick bool) tierParams {
@@ -221,16 +228,19 @@ func params(quick bool) tierParams {
 	wide := append(append([]string{}, base...), "\t", "t", "0", "\r", "à", "Å", "😅")
 	raw := []string{"{", "}", `"`, " ", "f", "0", `\`}
 	rawNoBs := []string{"{", "}", `"`, " ", "f", "0", "\t"}
+	rawQuotes := []string{"{", "}", `"`, " ", "f", "0", "'", "`"}
 	if quick {
 		return tierParams{litAlphabet: base, litLen: 5, litAlphabet2: wide, litLen2: 3,
 			seps: []string{" ", "  ", "\t", "\n"}, sepBits: []int{0, vkSepDouble, vkSepTab, vkSepNewline}, d1Bound3: 3,
-			b21: 2, b22: 2, b31: 1, mutIns: []string{"{", "}", `"`, `\`, " ", "q"}, mutBound: 0,
-			escBound: -1, rawAlphabet: raw, rawLen: 7, rawAlphabet2: rawNoBs, rawLen2: 7}
+			b21: 2, b22: 2, b31: 1, mutIns: []string{"{", "}", `"`, `\`, " ", "q", "'", "`"}, mutBound: 0,
+			escBound: -1, rawAlphabet: raw, rawLen: 7, rawAlphabet2: rawNoBs, rawLen2: 7, rawAlphabet3: rawQuotes, rawLen3: 6,
+			aliasBound: 2, aliasPartner: 2, pw2: 2, pw3: 1, pwD: 1}
 	}
 	return tierParams{litAlphabet: base, litLen: 6, litAlphabet2: wide, litLen2: 5,
 		seps: []string{" ", "  ", "\t", "\n"}, sepBits: []int{0, vkSepDouble, vkSepTab, vkSepNewline},
-		d1Bound3: -1, b21: 4, b22: 3, b31: 2, fullDepth2: true, fullBound: 1, mutIns: []string{"{", "}", `"`, `\`, " ", "q", "\t"}, mutBound: 1, mutDepth2: true,
-		escBound: -1, rawAlphabet: raw, rawLen: 9, rawAlphabet2: rawNoBs, rawLen2: 8}
+		d1Bound3: -1, b21: 4, b22: 3, b31: 2, fullDepth2: true, fullBound: 1, mutIns: []string{"{", "}", `"`, `\`, " ", "q", "\t", "'", "`"}, mutBound: 1, mutDepth2: true,
+		escBound: -1, rawAlphabet: raw, rawLen: 9, rawAlphabet2: rawNoBs, rawLen2: 8, rawAlphabet3: rawQuotes, rawLen3: 7,
+		aliasBound: -1, aliasPartner: 3, pw2: -1, pw3: 2, pwD: 2}
 }
 
 func worker(w *runner.W) {
@@ -241,6 +251,7 @@ func worker(w *runner.W) {
 	own := func() bool { caseNo++; return w.Owns(caseNo) }
 
 	// ---- A: literal round trip (S1)
+	litFamily := "" // "/alias-of-.../class" for the alias-rune strings
 	litCase := func(s string) bool {
 		if !own() {
 			return true
@@ -254,11 +265,14 @@ func worker(w *runner.W) {
 			esc  func(string) string
 		}{{"minimal-escapes", escapeMinimal}, {"every-character-escaped", escapeAll}} {
 			e := st.esc(s)
-			ok := c.expect(e, s, "C09/literal/"+st.name, "round trip of "+fmt.Sprintf("%q", s))
+			ok := c.expect(e, s, "C09/literal"+litFamily+"/"+st.name, "round trip of "+fmt.Sprintf("%q", s))
 			// the same literal around and between statements
-			ok = c.expect(e+"{0}"+e+"{k}", s+matchValue(0)+s+keyValue("k"), "C09/literal-next-to-statement/"+st.name, "round trip of "+fmt.Sprintf("%q", s)) && ok
+			ok = c.expect(e+"{0}"+e+"{k}", s+matchValue(0)+s+keyValue("k"), "C09/literal-next-to-statement"+litFamily+"/"+st.name, "round trip of "+fmt.Sprintf("%q", s)) && ok
 			w.Eval(ok && s != "")
 			w.Add("literal_templates", 2)
+			if litFamily != "" {
+				w.Add("alias_rune_literal_templates", 2)
+			}
 		}
 		w.Outcome("lit", s)
 		if w.WantSample() && len(s) >= 5 && strings.ContainsAny(s, `\{"`) {
@@ -270,6 +284,17 @@ func worker(w *runner.W) {
 		allStrings(tp.litAlphabet, 0, tp.litLen, litCase)
 		allStrings(tp.litAlphabet2, 1, tp.litLen2, litCase)
 		w.Max("max_literal_length", int64(tp.litLen))
+		// alias runes: S1 only the LETTERS n, t, r are special after a backslash
+		for _, a := range aliasRunes(w.Quick()) {
+			litFamily = "/" + a.label()
+			for _, s := range aliasStrings(a) {
+				if !litCase(s) {
+					return
+				}
+			}
+		}
+		litFamily = ""
+		w.Max("alias_runes", int64(len(aliasRunes(w.Quick()))))
 	}
 
 	// ---- B: expression trees x print variants (S2), C: their mutations (S3)
@@ -278,6 +303,7 @@ func worker(w *runner.W) {
 	calls("g", lv, 2, func(t *tree) { inner = append(inner, t) })
 	pool := append(append([]*tree{}, lv...), inner...)
 
+	treeSig := "" // "" = C09/tree/<variant>; the punctuation-word family names the character instead
 	treeCase := func(t *tree, bound int, mutate bool, mutBound int) bool {
 		if !own() {
 			return true
@@ -292,7 +318,12 @@ func worker(w *runner.W) {
 			ex.EndExecution()
 			vn := variantName(p.used)
 			w.SetCase(func() any { return Case{Kind: "expect", Template: tpl, Want: want} })
-			ok := c.expect(tpl, want, "C09/tree/"+vn, "tree "+t.String())
+			sig := "C09/tree/" + vn
+			if treeSig != "" {
+				sig = treeSig
+				w.Add("punctuation_word_prints", 1)
+			}
+			ok := c.expect(tpl, want, sig, "tree "+t.String()+", variant "+vn)
 			w.Eval(ok)
 			w.Add("tree_prints", 1)
 			w.Outcome("tree", want, vn)
@@ -317,7 +348,11 @@ func worker(w *runner.W) {
 		}
 		w.Add("choice_points", ex.ChoicePoints)
 		w.Add("trees", 1)
-		w.Add(fmt.Sprintf("prints_depth%d_args%d_inner%d", t.depth(), len(t.args), t.innerCalls()), ex.Executions)
+		if treeSig != "" {
+			w.Add("punctuation_word_trees", 1)
+		} else {
+			w.Add(fmt.Sprintf("prints_depth%d_args%d_inner%d", t.depth(), len(t.args), t.innerCalls()), ex.Executions)
+		}
 		return true
 	}
 	if part == "all" || part == "trees" {
@@ -358,6 +393,46 @@ func worker(w *runner.W) {
 		}
 	}
 
+	// ---- W: words made of / containing punctuation that is not syntax (S2)
+	if part == "all" || part == "words" {
+		call := func(fn string, args ...*tree) *tree { return &tree{kind: lCall, fn: fn, args: args} }
+		ok := true
+		each := func(t *tree, bound int) {
+			if ok && !treeCase(t, bound, false, 0) {
+				ok = false
+			}
+		}
+		pls := punctLeaves(w.Quick())
+		for _, pl := range pls {
+			x := pl.t
+			treeSig = "C09/punctuation-word/" + pl.name
+			each(call("f", x), -1)
+			each(call("g", x, x), tp.pw2)
+			each(call("f", call("g", x)), tp.pw2)
+			each(call("f", call("g", x), x), tp.pwD)
+			each(call("f", x, call("g", x)), tp.pwD)
+			each(call("f", call("g", x), call("g", x)), tp.pwD)
+			each(call("f", call("g", x, x)), tp.pwD)
+			for _, y := range lv {
+				each(call("f", x, y), tp.pw2)
+				each(call("f", y, x), tp.pw2)
+				each(call("g", x, y, x), tp.pw3)
+				each(call("g", y, x, y), tp.pw3)
+				each(call("f", call("g", x), y), tp.pwD)
+				each(call("f", y, call("g", x)), tp.pwD)
+				each(call("f", call("g", x, y)), tp.pwD)
+				each(call("f", call("g", y, x)), tp.pwD)
+				each(call("f", x, call("g", y)), tp.pwD)
+				each(call("f", call("g", y), x), tp.pwD)
+			}
+		}
+		treeSig = ""
+		w.Max("punctuation_word_leaves", int64(len(pls)))
+		if !ok {
+			return
+		}
+	}
+
 	// ---- E: escapes inside call arguments, unquoted non-ASCII words (S1 + S2)
 	escCase := func(t *etree, bound int) bool {
 		if !own() {
@@ -376,6 +451,9 @@ func worker(w *runner.W) {
 			ok := c.expect(tpl, want, "C09/argument-text/"+t.label, "tree "+t.String()+", variant "+vn)
 			w.Eval(ok)
 			w.Add("escape_tree_prints", 1)
+			if strings.HasPrefix(t.label, "alias-of-") {
+				w.Add("alias_rune_tree_prints", 1)
+			}
 			w.Outcome("esc", want, vn)
 			if w.WantSample() && t.depth() == 2 && p.used&evQuoted != 0 && strings.Contains(tpl, `\\\\`) && len(tpl) < 120 {
 				w.Sample(map[string]string{"tree": t.String(), "template": tpl, "value": want})
@@ -405,6 +483,37 @@ func worker(w *runner.W) {
 				each(eCallOf("f", eCallOf("g", x), y), tp.escBound)
 				each(eCallOf("f", y, eCallOf("g", x)), tp.escBound)
 				each(eCallOf("f", eCallOf("g", x, y)), tp.escBound)
+			}
+		}
+		// alias runes as argument text and keys: alone, between other text and
+		// next to the character they alias, next to a partner leaf
+		partners := []*etree{el[6], el[16], el[0]}[:tp.aliasPartner] // `s t`, {1}, c\d
+		for _, a := range aliasRunes(w.Quick()) {
+			r, ch := string(a.r), string(a.target.c)
+			lab := a.label()
+			x := &etree{k: eText, text: r, label: lab}
+			m := &etree{k: eText, text: "a" + r + ch + r + "b", label: lab}
+			if !a.space {
+				k := &etree{k: eLookup, text: "a" + r, label: lab}
+				each(k, -1)
+				each(eCallOf("f", k), -1)
+				each(eCallOf("f", eCallOf("g", k, x)), -1)
+			}
+			each(eCallOf("f", x), -1)
+			each(eCallOf("f", eCallOf("g", x)), -1)
+			each(eCallOf("f", eCallOf("g", eCallOf("f", x))), -1)
+			each(eCallOf("f", m), -1)
+			each(eCallOf("f", eCallOf("g", m)), -1)
+			for _, y := range partners {
+				for _, t := range []*etree{eCallOf("f", m, y), eCallOf("f", y, m), eCallOf("f", eCallOf("g", m), y), eCallOf("f", y, eCallOf("g", m)),
+					eCallOf("f", eCallOf("g", m, y)), eCallOf("f", eCallOf("g", y, m))} {
+					t.label = lab // the partner is plain; a failure is about the alias rune
+					b := tp.aliasBound
+					if t.depth() == 1 {
+						b = -1
+					}
+					each(t, b)
+				}
 			}
 		}
 		if !ok {
@@ -574,6 +683,7 @@ func worker(w *runner.W) {
 	}
 
 	// ---- D: raw strings over the syntax alphabet
+	rawFamily := ""
 	rawCase := func(s string) bool {
 		if !own() {
 			return true
@@ -585,6 +695,9 @@ func worker(w *runner.W) {
 		v, out := c.judged(s, "raw")
 		w.Eval(v != vUnspec && strings.Contains(s, "{"))
 		w.Add("raw_strings", 1)
+		if rawFamily != "" {
+			w.Add(rawFamily, 1)
+		}
 		w.Add("raw_strings_"+strings.ReplaceAll(v.String(), "-", "_"), 1)
 		w.Outcome("raw", out)
 		return true
@@ -596,6 +709,14 @@ func worker(w *runner.W) {
 				caseNo++ // already covered by the first alphabet
 				return true
 			}
+			return rawCase(s)
+		})
+		allStrings(tp.rawAlphabet3, 1, tp.rawLen3, func(s string) bool {
+			if !strings.ContainsAny(s, "'`") {
+				caseNo++ // already covered by the first alphabet
+				return true
+			}
+			rawFamily = "raw_strings_with_foreign_quotes"
 			return rawCase(s)
 		})
 		w.Max("max_raw_length", int64(tp.rawLen))
@@ -645,6 +766,13 @@ func replay(w *runner.W, raw json.RawMessage) {
 	}
 }
 
+func boundText(b int) string {
+	if b < 0 {
+		return "every combination"
+	}
+	return fmt.Sprintf("at most %d non-default choices", b)
+}
+
 func show(a []string) string {
 	out := make([]string, len(a))
 	for i, s := range a {
@@ -673,8 +801,10 @@ func main() {
 			if tp.fullDepth2 {
 				full = fmt.Sprintf("at most %d deviations", tp.fullBound)
 			}
-			return fmt.Sprintf("(A) every string with 0..%d symbols over {%s} and 1..%d symbols over {%s}, rendered with minimal escapes (only \\ { }) and with every character escaped, alone and as `E{0}E{k}`, must evaluate to the string; (B) expression trees f(args)/g(args) with 1..3 arguments over leaves {a, \"b c\", \"\", {0}, {1}, {k}, p{1}} and, below f, calls g(1..2 leaves); printed with every combination of argument separator {%s}, optional quoting of words, lookups and quote-free calls, leading/trailing blank inside the braces, and literal neighbours (`xTy {1}{0}`): all combinations for depth-1 trees (three arguments: %s) and depth-2 trees with one argument, at most %d non-default choices for depth-2 trees with 2 arguments and one inner call, at most %d for 2 arguments/two inner calls, at most %d for 3 arguments/one inner call, 3 arguments with more inner calls: %s; evaluated with recording functions in a private KeyBuilder (optimisation on and off) against the value of the tree; (C) every single-character deletion and every insertion of one of {%s} at every position of the plain print of the depth-1 trees (prints with at most %d non-default choices) and, in the thorough tier, of the depth-2 trees with at most 2 arguments, judged by the reference reading; (E) trees whose leaves need escaping inside call arguments or are unquoted non-ASCII words: leaves {c\\d, C:\\\\temp\\new, o{p}, l<LF>m, <TAB>z<CR>, q\"r, 's t', \\\"\\{\\ \\n, voilà, Ångström, Škoda, 😅🤠, é, {voilà}, {Å}, {Š😅}, {1}, w\\{0}, {k}<LF>{{à}} (UTF-8 encodings containing the bytes 0x85/0xA0, a 4-byte rune); trees: each lookup alone, f(x), f(g(x)), f(g(f(x))), f(x,y), f(g(x),y), f(y,g(x)), f(g(x,y)) for all leaves x,y; printed by applying, for every enclosing pass (template scan, argument split, argument compilation: 2d+1 passes at call depth d), the inverse of that pass to all text that is not syntax of that level; every combination of quoted/unquoted per argument, blank/tab separators, control characters raw or as \\n \\t \\r, and literal neighbours `\\\\T\\{{0}` (depth-2 trees with two leaves: %s); must evaluate to the tree value; (D) every string with 0..%d symbols over {%s} and the strings with a tab among 1..%d symbols over {%s}, judged by the reference reading (value / must be a compile error / not settled); (L) templates of 1..%d segments laid out by 10 cycles of {literal, constant call, group, key, call on a group}, as the template itself, as one quoted argument of a call, and as that many separate arguments of one call, must evaluate to the concatenation / the call the segments dictate; (I) integer-like lone tokens: every value b+o for b in {%s}, o in -%d..+%d (-%d..+%d for the boundaries marked *, whose upper neighbours a wrapped-around or truncated index would alias to a small group), printed with sign {none,-,+} and with %s leading zeros and zero-padded to %s digits, each in the templates {%s} (T the token); the context logs every look-up: a template without its own braces around T keeps T as text, otherwise every look-up performed must be the group whose number is exactly the token's value or the key named exactly the token's text (for a value no int can hold: the key, or nothing at all with an empty result), the result must be the one that reading gives, tokens -?[0-9]{1,9} must be the group look-up, and Compile must not report an error; (H) histories on ONE KeyBuilder that starts with only g registered: every sequence of exactly %d operations (all shorter ones are their prefixes) over {%s}, with optimisation on and off; after every Compile: a function of the template is unregistered at that moment <=> compile error, otherwise the value is the tree value with the currently registered versions (recording functions f1/f2/h1/h2 name their version), and error presence, error text and BuildKey output equal those of a FRESH KeyBuilder given the same function table; states = distinct operation prefixes, transitions = operations applied to the builder under test; no panic anywhere. non-trivial = (A) non-empty string evaluated, (B,E,I) compiled and compared, (C,D) the reference reading settles the template (value or must-error) [D: and it contains a statement], (H) the sequence has a Compile after a registration and every check passed",
-				tp.litLen, show(tp.litAlphabet), tp.litLen2, show(tp.litAlphabet2), show(tp.seps), d1, tp.b21, tp.b22, tp.b31, full, show(tp.mutIns), tp.mutBound, eb, tp.rawLen, show(tp.rawAlphabet), tp.rawLen2, show(tp.rawAlphabet2), map[bool]int{true: 100, false: 300}[tier != "thorough"],
+			return fmt.Sprintf("(A) every string with 0..%d symbols over {%s} and 1..%d symbols over {%s}, rendered with minimal escapes (only \\ { }) and with every character escaped, alone and as `E{0}E{k}`, must evaluate to the string; the same for 9 strings per alias rune R of an ASCII character c (R, RR, aRb, Rc, cR, aRcRb, \\R, R\\, {R}) over %s; (B) expression trees f(args)/g(args) with 1..3 arguments over leaves {a, \"b c\", \"\", {0}, {1}, {k}, p{1}} and, below f, calls g(1..2 leaves); printed with every combination of argument separator {%s}, optional quoting of words, lookups and quote-free calls, leading/trailing blank inside the braces, and literal neighbours (`xTy {1}{0}`): all combinations for depth-1 trees (three arguments: %s) and depth-2 trees with one argument, at most %d non-default choices for depth-2 trees with 2 arguments and one inner call, at most %d for 2 arguments/two inner calls, at most %d for 3 arguments/one inner call, 3 arguments with more inner calls: %s; evaluated with recording functions in a private KeyBuilder (optimisation on and off) against the value of the tree; (W) punctuation words: for every character p of {%s} (all printable ASCII punctuation that is not syntax, typographic and fullwidth quotes) the leaves %s; for each such leaf x and every leaf y of (B) the trees f(x), g(x,x), f(g(x)), f(g(x),x), f(x,g(x)), f(g(x),g(x)), f(g(x,x)), f(x,y), f(y,x), g(x,y,x), g(y,x,y), f(g(x),y), f(y,g(x)), f(g(x,y)), f(g(y,x)), f(x,g(y)), f(g(y),x) printed with the variants of (B): f(x) every combination, two-argument depth-1 trees and f(g(x)) %s, three-argument trees %s, other depth-2 trees %s; a word is just text / a key of exactly that name; (C) every single-character deletion and every insertion of one of {%s} at every position of the plain print of the depth-1 trees (prints with at most %d non-default choices) and, in the thorough tier, of the depth-2 trees with at most 2 arguments, judged by the reference reading; (E) trees whose leaves need escaping inside call arguments or are unquoted non-ASCII words: leaves {c\\d, C:\\\\temp\\new, o{p}, l<LF>m, <TAB>z<CR>, q\"r, 's t', \\\"\\{\\ \\n, voilà, Ångström, Škoda, 😅🤠, é, {voilà}, {Å}, {Š😅}, {1}, w\\{0}, {k}<LF>{{à}} (UTF-8 encodings containing the bytes 0x85/0xA0, a 4-byte rune); trees: each lookup alone, f(x), f(g(x)), f(g(f(x))), f(x,y), f(g(x),y), f(y,g(x)), f(g(x,y)) for all leaves x,y; printed by applying, for every enclosing pass (template scan, argument split, argument compilation: 2d+1 passes at call depth d), the inverse of that pass to all text that is not syntax of that level; every combination of quoted/unquoted per argument, blank/tab separators, control characters raw or as \\n \\t \\r, escape style {a backslash only where a pass needs one; in every pass a backslash before every literal character except the letters n t r; that only in the innermost pass (the leaf's own text and a key's two passes)}, and literal neighbours `\\\\T\\{{0}` (depth-2 trees with two leaves: %s); additionally for every alias rune R of c: key {aR} alone, f({aR}), f(g({aR},R)) [not for R that is Unicode white space], f(R), f(g(R)), f(g(f(R))), f(m), f(g(m)) with m = aRcRb, and with each partner y of the first %d of {s t, {1}, c\\d}: f(m,y), f(y,m) in every combination and f(g(m),y), f(y,g(m)), f(g(m,y)), f(g(y,m)) with %s (white space other than blank/tab/CR/LF is written escaped when unquoted); must evaluate to the tree value; (D) every string with 0..%d symbols over {%s} and the strings with a tab among 1..%d symbols over {%s} and the strings with an apostrophe or backtick among 1..%d symbols over {%s}, judged by the reference reading (value / must be a compile error / not settled); (L) templates of 1..%d segments laid out by 10 cycles of {literal, constant call, group, key, call on a group}, as the template itself, as one quoted argument of a call, and as that many separate arguments of one call, must evaluate to the concatenation / the call the segments dictate; (I) integer-like lone tokens: every value b+o for b in {%s}, o in -%d..+%d (-%d..+%d for the boundaries marked *, whose upper neighbours a wrapped-around or truncated index would alias to a small group), printed with sign {none,-,+} and with %s leading zeros and zero-padded to %s digits, each in the templates {%s} (T the token); the context logs every look-up: a template without its own braces around T keeps T as text, otherwise every look-up performed must be the group whose number is exactly the token's value or the key named exactly the token's text (for a value no int can hold: the key, or nothing at all with an empty result), the result must be the one that reading gives, tokens -?[0-9]{1,9} must be the group look-up, and Compile must not report an error; (H) histories on ONE KeyBuilder that starts with only g registered: every sequence of exactly %d operations (all shorter ones are their prefixes) over {%s}, with optimisation on and off; after every Compile: a function of the template is unregistered at that moment <=> compile error, otherwise the value is the tree value with the currently registered versions (recording functions f1/f2/h1/h2 name their version), and error presence, error text and BuildKey output equal those of a FRESH KeyBuilder given the same function table; states = distinct operation prefixes, transitions = operations applied to the builder under test; no panic anywhere. non-trivial = (A) non-empty string evaluated, (B,W,E,I) compiled and compared, (C,D) the reference reading settles the template (value or must-error) [D: and it contains a statement], (H) the sequence has a Compile after a registration and every check passed",
+				tp.litLen, show(tp.litAlphabet), tp.litLen2, show(tp.litAlphabet2), aliasRuleText(tier != "thorough"), show(tp.seps), d1, tp.b21, tp.b22, tp.b31, full,
+				punctRuleText(), punctLeafRule(tier != "thorough"), boundText(tp.pw2), boundText(tp.pw3), boundText(tp.pwD),
+				show(tp.mutIns), tp.mutBound, eb, tp.aliasPartner, boundText(tp.aliasBound), tp.rawLen, show(tp.rawAlphabet), tp.rawLen2, show(tp.rawAlphabet2), tp.rawLen3, show(tp.rawAlphabet3), map[bool]int{true: 100, false: 300}[tier != "thorough"],
 				intRuleBoundaries(tier != "thorough"), ip.around, ip.around, ip.around, ip.smallK, showInts(ip.padN), showInts(ip.padTo), intRuleContexts(),
 				histDepth(tier != "thorough"), histRuleOps())
 		},
@@ -685,6 +815,8 @@ func main() {
 				"inside statements an escape is consumed once per pass that reads the text (scan of the enclosing template, split into arguments, compilation of the argument as a template; DESIGN §6 'an escape is consumed once per nesting level'); part E prints with the inverse of exactly these passes and demands the tree value",
 				fmt.Sprintf("part I: the recording context answers <mN> for every int N and logs each look-up; int is %d bits in this build; a value outside int cannot be passed to GetMatch, so for it 'group of exactly that value' can only show as no look-up and an empty result", strconv.IntSize),
 				"part H: Func/Funcs may be called between two Compile calls of one KeyBuilder (funcfile.LoadDefinitions alternates Compile and Func on one builder) and a Compile means the template with the functions registered at that moment; the comparison with a fresh builder includes the text of the compile error and the output of the partially usable builder Compile returns next to an error",
+				"parts A, E (alias runes): after a backslash only the ASCII letters n, t, r are special and only the ASCII characters { } \" \\ and white space are syntax; every other rune - whatever its low byte, low 7 or 16 bits or UTF-8 bytes are - is an ordinary character; escaping a character that needs no escape is allowed in every pass (S1 '`\\x` makes any character literal'), including the characters of a function name or key; whether the argument split turns \\n \\t \\r into letters or control characters is not settled, so the every-character style leaves the letters n t r unescaped",
+				"part W and the apostrophe/backtick strings of parts C, D: only DOUBLE quotes quote (S2); ' ` and all other punctuation except { } \" \\ are ordinary characters of a word, a function name or a key",
 				"parts B-D: generated quoted leaves contain blanks but none of { } \" \\; a call is printed inside quotes only when it contains no quotes (quotes do not nest)",
 			}
 		},
